@@ -1241,12 +1241,58 @@ func (pf *ParserFacts) origins(v ssa.Value, seen map[ssa.Value]bool) []origin {
 		}
 	case *ssa.Phi:
 		var out []origin
-		for _, e := range x.Edges {
+		for i, e := range x.Edges {
+			if i < len(x.Block().Preds) && knownNilOnEdge(e, x.Block().Preds[i], x.Block()) {
+				// the edge is only taken on the nil side of a test of this very value
+				out = append(out, origin{kind: "nil"})
+				continue
+			}
 			out = append(out, pf.origins(e, seen)...)
 		}
 		return out
 	}
 	return []origin{{kind: "value", val: v}}
+}
+
+// knownNilOnEdge: the control edge pred→blk lies on the nil side of a test v == nil / v != nil
+// (if endIndex != nil { endIndex = … } leaves the old value only where it is nil).
+func knownNilOnEdge(v ssa.Value, pred, blk *ssa.BasicBlock) bool {
+	for d := pred; d != nil; d = d.Idom() {
+		if len(d.Instrs) == 0 || len(d.Succs) != 2 {
+			continue
+		}
+		ifi, ok := d.Instrs[len(d.Instrs)-1].(*ssa.If)
+		if !ok {
+			continue
+		}
+		bo, ok := ifi.Cond.(*ssa.BinOp)
+		if !ok || (bo.Op != token.EQL && bo.Op != token.NEQ) {
+			continue
+		}
+		var other ssa.Value
+		switch {
+		case bo.X == v:
+			other = bo.Y
+		case bo.Y == v:
+			other = bo.X
+		default:
+			continue
+		}
+		if k, ok := other.(*ssa.Const); !ok || !k.IsNil() {
+			continue
+		}
+		nilSucc, otherSucc := d.Succs[0], d.Succs[1]
+		if bo.Op == token.NEQ {
+			nilSucc, otherSucc = otherSucc, nilSucc
+		}
+		if d == pred && nilSucc == blk && otherSucc != blk {
+			return true
+		}
+		if nilSucc != blk && len(nilSucc.Preds) == 1 && nilSucc.Dominates(pred) {
+			return true
+		}
+	}
+	return false
 }
 
 // intrinsicType: the constant type of a node constructed in place, following delegation.
